@@ -78,6 +78,8 @@ def oracle(case: dict):
 
 
 def fragile(case) -> bool:
+    if case["engine"] == "sqlite" and not all(core.sqlite_literal_exact(t) for t in probs_of(case)):
+        return True  # SQLite reads one of the threshold literals one ulp high (engine defect, see core.sqlite_literal_exact)
     if not case["weights"]:
         return False
     return any(p != t and abs(p - t) <= 1e-12 for t in probs_of(case) for _, _, p in case["edges"])
@@ -208,7 +210,7 @@ def compare(ctx, cases, drv):
         if "error" in m:
             raise RuntimeError("model driver error: " + m["error"])
         if fragile(c):
-            ctx.count("excluded", "weight threshold within 1e-12 of an edge probability")
+            ctx.count("excluded", "weight threshold within 1e-12 of an edge probability / SQLite misreads a threshold literal")
             continue
         v = verdict(c, r)
         if v is not None:
